@@ -2,6 +2,7 @@
 
 //verif:dir p2p/host/basic
 //verif:also C03 VerifC04eNewStream
+//verif:also C07 VerifC04eNewStream
 //verif:subst p2p/host/basic github.com/multiformats/go-multistream.SelectOneOf !verifSelectOneOf
 //verif:obligation C04.e BasicHost.NewStream: whenever the call fails after the swarm stream was opened (identify wait cancelled, peerstore error, SetProtocol refused on the known-protocol path, negotiation error, SetProtocol refused after negotiation) the stream is reset, so its scope and the muxed stream are released; when it fails before a stream exists nothing is leaked; on success the stream is not reset and reports one of the requested protocols, set before it is returned
 //verif:bound one NewStream call; request list of 2 protocol IDs; every stage outcome symbolic
